@@ -288,6 +288,11 @@ std::uint64_t Field(const std::string& json, const std::string& key) {
 int RunShard(const vx::Options& opt, int size, int shard, int shards) {
   vx::Explorer ex(opt);
   auto all = AllScenarios(size);
+  if (!opt.only.empty()) {  // replay: the scenario may come from either tier
+    all = AllScenarios(0);
+    for (auto& sc : AllScenarios(1))
+      if (std::none_of(all.begin(), all.end(), [&](const Scenario& x) { return x.Header() == sc.Header(); })) all.push_back(sc);
+  }
   for (std::size_t i = 0; i < all.size(); ++i) {
     if (static_cast<int>(i % static_cast<std::size_t>(shards)) != shard) continue;
     auto& sc = all[i];
